@@ -10,6 +10,7 @@ CONSTANTS
   MaxDup = 2
   MaxNet = 6
   MaxTime = 10000
+  MaxForge = 0
   Writers = {1, 2}
   SnOff <- SnOff00
   ClkOff = 0
